@@ -19,7 +19,7 @@ Hypotheses, and why each is there:
 `partitionOf` (spec) is the raw partition, `partOf` (model, `getRollingUpdatePartition`) clamps it at 0:
 `partOf_eq_max`. -/
 namespace Asts.C07
-open Asts
+open Asts Asts.L1b
 
 /-- **Headline.** The monitor `C07` is true on the model's output for every spec (both strategies, both policies, any
     partition), every snapshot with phases and distinct ordinals and every fault plan. `Prop` reading: the clause theorems
@@ -27,20 +27,20 @@ open Asts
 theorem C07_holds (v : SetView) (cur upd : String) (pods : List Pod) (f : Faults) (r : Int)
     (hr : v.replicas = some r) (h0 : 0 ≤ r) (hwf : wfSnapshot pods = true) (hids : IdsOk pods) :
     C07 v cur upd pods (observe (updateStatefulSet v cur upd pods f).1.acts) = true :=
-  Asts.C07_holds v cur upd pods f r hr h0 hwf hids
+  Asts.L1b.C07_holds v cur upd pods f r hr h0 hwf hids
 
 /-- The headline with the replica count read as the monitor reads it (`replicasOf v`, 0 for a nil pointer). -/
 theorem C07_holds_total (v : SetView) (cur upd : String) (pods : List Pod) (f : Faults)
     (h0 : 0 ≤ replicasOf v) (hwf : wfSnapshot pods = true) (hids : IdsOk pods) :
     C07 v cur upd pods (observe (updateStatefulSet v cur upd pods f).1.acts) = true :=
-  Asts.C07_holds_total v cur upd pods f h0 hwf hids
+  Asts.L1b.C07_holds_total v cur upd pods f h0 hwf hids
 
 /-- The headline with pod ids given as positions in the snapshot, as the engine and the driver number them. -/
 theorem C07_holds_positions (v : SetView) (cur upd : String) (pods : List Pod) (f : Faults) (r : Int)
     (hr : v.replicas = some r) (h0 : 0 ≤ r) (hwf : wfSnapshot pods = true)
     (hpos : ∀ (i : Nat) (p : Pod), pods[i]? = some p → p.id = i) (hlen : pods.length < freshId) :
     C07 v cur upd pods (observe (updateStatefulSet v cur upd pods f).1.acts) = true :=
-  Asts.C07_holds v cur upd pods f r hr h0 hwf (idsOk_of_positions hpos hlen)
+  Asts.L1b.C07_holds v cur upd pods f r hr h0 hwf (idsOk_of_positions hpos hlen)
 
 /-- **OnDelete never restarts**: under OnDelete the update walk deletes nothing — any spec, snapshot, fault plan. -/
 theorem onDelete_no_update_delete (v : SetView) (cur upd : String) (pods : List Pod) (f : Faults)
@@ -104,7 +104,7 @@ theorem C07_legacy_boundary (v : SetView) (cur upd : String) (pods : List Pod) (
     (hru : v.ru = none) {o : Int} {rev : String}
     (h : Action.create o rev ∈ (updateStatefulSet v cur upd pods f).1.acts) :
     rev = if o < v.stCurrentReplicas then cur else upd :=
-  Asts.C07_legacy_boundary v cur upd pods f r hr h0 hwf hst hru h
+  Asts.L1b.C07_legacy_boundary v cur upd pods f r hr h0 hwf hst hru h
 
 /-- The legacy rule as an equivalence (the two revisions differ): a create at `o` carries `cur` iff
     `o < status.currentReplicas`. -/
@@ -113,7 +113,7 @@ theorem C07_legacy_boundary_iff (v : SetView) (cur upd : String) (pods : List Po
     (hru : v.ru = none) (hne : cur ≠ upd) {o : Int} {rev : String}
     (h : Action.create o rev ∈ (updateStatefulSet v cur upd pods f).1.acts) :
     rev = cur ↔ o < v.stCurrentReplicas :=
-  Asts.C07_legacy_boundary_iff v cur upd pods f r hr h0 hwf hst hru hne h
+  Asts.L1b.C07_legacy_boundary_iff v cur upd pods f r hr h0 hwf hst hru hne h
 
 /-- A block without partition value, or no block under a strategy other than RollingUpdate (OnDelete or an unknown
     string): every created pod is built from the update revision. -/
@@ -124,10 +124,10 @@ theorem create_revision_no_partition (v : SetView) (cur upd : String) (pods : Li
   C07_create_no_partition v cur upd pods f r hr h0 hwf hru h
 
 /-- the model's partition is the spec's raw partition clamped at 0 -/
-theorem partOf_eq_max (v : SetView) : partOf v = max 0 (partitionOf v) := Asts.partOf_eq_max v
+theorem partOf_eq_max (v : SetView) : partOf v = max 0 (partitionOf v) := Asts.L1b.partOf_eq_max v
 
 /-- hence the raw partition never exceeds the one the model walks down to -/
-theorem partitionOf_le_partOf (v : SetView) : partitionOf v ≤ partOf v := Asts.partitionOf_le_partOf v
+theorem partitionOf_le_partOf (v : SetView) : partitionOf v ≤ partOf v := Asts.L1b.partitionOf_le_partOf v
 
 /-! ### non-vacuity: `D = [0, 2, 3]` (slot 1), partition 2, revisions "a" → "b" -/
 
